@@ -229,8 +229,19 @@ def check(case):
     streams = []
     recorders = []
 
+    display = case.get("display") or {}
+
     def formatters(config):
         config.format = list(names)
+        # display options change what the text formatters print, never which events arrive
+        if "show_source" in display:
+            config.show_source = bool(display["show_source"])
+        if "show_timings" in display:
+            config.show_timings = bool(display["show_timings"])
+        if "show_multiline" in display:
+            config.show_multiline = bool(display["show_multiline"])
+        if display.get("color"):
+            config.color = display["color"]
         openers = []
         for _ in names:
             stream = io.StringIO()
@@ -297,6 +308,10 @@ def check(case):
         interesting.append("nested-steps")
         if cfg.get("verbose"):
             interesting.append("nested-steps+verbose")
+    if display:
+        interesting.append("display-options")
+        if display.get("color") == "always" and display.get("show_source") is False and "pretty" in names:
+            interesting.append("display:pretty-coloured-without-source")
     for lab in interesting:
         res.label(lab)
     if ref.skipped_by_hook:
@@ -609,6 +624,10 @@ def case_st(draw):
     if draw(st.integers(0, 2)) == 0 and "json" not in names:
         names.insert(draw(st.integers(0, len(names))), "json")
     case = {"program": prog, "formatters": names}
+    if draw(st.integers(0, 2)) == 0:
+        case["display"] = {"show_source": draw(st.booleans()), "show_timings": draw(st.booleans()),
+                           "show_multiline": draw(st.booleans()),
+                           "color": draw(st.sampled_from(["always", "always", "off"]))}
     if draw(st.integers(0, 5)) == 0:
         case["readback_file"] = True
     return case
@@ -622,7 +641,8 @@ def explore(rec):
 def required_labels(tier):
     return ["fmt:" + f for f in FORMATTERS] + ["json:background-steps", "nested-steps", "nested-steps+verbose", "rule-background", "outline", "failure", "deselection", "dry-run",
                                                "dry-run+undefined", "readback:file", "skipped-by-hook:feature", "skipped-by-hook:scenario",
-                                               "skipped-by-hook:rule"]
+                                               "skipped-by-hook:rule", "display:pretty-coloured-without-source"]
 
 
 KNOWN_PREDICATES = {}
+RULE = RULE + " " + ('A third of the cases set display options (show_source, show_timings, show_multiline, colour always / off): they change what text formatters print, never the event stream or the run.')
